@@ -56,9 +56,15 @@ RARE_TEMPLATES = [(("sq", "dq"), "ANALYZE TABLE t PARTITION (dt = {R}) COMPUTE S
                   (("sq", "dq"), "CREATE TABLE t (a int) PARTITIONED BY (dt string COMMENT {R}) STORED AS ORC TBLPROPERTIES ({R}={R})", ("HIVE",)),
                   (("sq", "dq"), "CREATE TABLE t (a int, KEY k (a) USING BTREE COMMENT {R}) ENGINE=InnoDB COMMENT={R}", ("MYSQL",)),
                   (("sq", "dq"), "INSERT OVERWRITE TABLE t PARTITION (dt = {R}, hr) SELECT a FROM u", ("HIVE",)), (("sq", "dq"), "INSERT IGNORE INTO t (a) VALUES ({R}), ({R})", ("MYSQL",)),
+                  (("bq",), "SELECT a FROM t LATERAL VIEW explode(b) {R} AS x", ("HIVE",)), (("bq",), "SELECT {R}.x FROM t LATERAL VIEW OUTER explode(b) {R} AS x, y WHERE x = 'k'", ("HIVE",)),
                   (("sq", "dq"), "SELECT a FROM t LATERAL VIEW OUTER explode(split(b, {R})) v AS x, y", ("HIVE",)), (("sq", "dq"), "SELECT a FROM t ORDER BY f({R}) DESC NULLS LAST LIMIT 1", ("MYSQL", "HIVE")),
                   (("sq", "dq"), "SELECT SUM(a) OVER (PARTITION BY f({R}) ORDER BY b ROWS BETWEEN 1 PRECEDING AND CURRENT ROW) FROM t", ("MYSQL", "HIVE")),
                   (("sq", "dq"), "SELECT a FROM t GROUP BY f({R}) GROUPING SETS ((f({R})), ())", ("HIVE",)), (("sq", "dq"), "SELECT m[{R}], CAST({R} AS DECIMAL(10, 2)), EXTRACT(YEAR FROM {R}) FROM t", ("HIVE",))]
+
+
+# positions whose name the parser keeps WITH its back-quotes (the LATERAL VIEW view name, parser.py `_parse_lateral_view_clause`): the leaf is accepted in either form —
+# what decides is that the printed statement reads back as the same tree (seeded C06-12: the quotes stripped by the parser and not restored by the printer)
+RAW_BQ = "LATERAL VIEW"
 
 
 def ok_payload(kind, p):
@@ -141,6 +147,9 @@ def run(ctx):
                 fail("comment-visible", "a comment body must not influence the tree")
             continue
         la, lb = '"' + canon.q(leaf_text(kind, p1)) + '"', '"' + canon.q(leaf_text(kind, p2)) + '"'
+        if kind == "bq" and RAW_BQ in tmpl:
+            ra_, rb_ = '"' + canon.q("`" + p1 + "`") + '"', '"' + canon.q("`" + p2 + "`") + '"'
+            xa, xb = xa.replace(ra_, la), xb.replace(rb_, lb)
         if la not in xa:
             fail("payload-not-verbatim", "the written text %r must reach the tree unchanged" % leaf_text(kind, p1)); continue
         if xa.replace(la, "§") != xb.replace(lb, "§"):
